@@ -143,20 +143,33 @@ func runC05(c *Ctx) {
 			"the await goroutine must arm, before awaitRun, a deferred closure that closes awaitErr and then calls onWaitDone exactly once on every path")
 	}
 	{ // Engine.Run: wait.Add(1) before go, Done passed
-		adds := Calls(engRun, sWGAdd)
-		var gos []ssa.Instruction
-		EachInstr(engRun, func(in ssa.Instruction) {
-			if _, ok := in.(*ssa.Go); ok {
-				gos = append(gos, in)
+		// Engine.Run or the helper of the package that starts the pools (startPools(ctx, runRes))
+		var adds, gos []ssa.Instruction
+		for _, g := range FindFuncs(engRun, 2, func(*ssa.Function) bool { return true }) {
+			if g.Parent() != nil {
+				continue
 			}
-		})
+			var ga, gg []ssa.Instruction
+			ga = Calls(g, sWGAdd)
+			EachInstr(g, func(in ssa.Instruction) {
+				if _, ok := in.(*ssa.Go); ok {
+					gg = append(gg, in)
+				}
+			})
+			if len(ga) > 0 && len(gg) > 0 && len(adds) == 0 {
+				adds, gos = ga, gg
+			}
+		}
 		ok := len(adds) == 1 && len(gos) == 1 && InstrDominates(adds[0], gos[0]) && adds[0].Block() == gos[0].Block()
 		if ok {
 			v, isC := ConstInt(CC(adds[0]).Args[1])
 			ok = isC && v == 1
 		}
 		c.Check(ok, "O5.1", fk(engRun)+":one-waitgroup-count-per-pool", engRun.Pos(), "wait.Add(1) exactly once per started pool goroutine, before it starts")
-		np := Calls(engRun, Spec{"./core/engine", "", "newPool"})
+		var np []ssa.Instruction
+		for _, g := range FindFuncs(engRun, 2, func(*ssa.Function) bool { return true }) {
+			np = append(np, Calls(g, Spec{"./core/engine", "", "newPool"})...)
+		}
 		okD := len(np) == 1
 		if okD {
 			arg := CC(np[0]).Args[2]
@@ -182,7 +195,26 @@ func runC05(c *Ctx) {
 	// ---------------- O5.2
 	{
 		n := 0
+		// the three functions that start goroutines, with the helpers of the package they call for it
+		var goRoots []*ssa.Function
+		seenRoot := map[*ssa.Function]bool{}
 		for _, root := range []*ssa.Function{engRun, runAsync, startInst} {
+			for _, g := range FindFuncs(root, 2, func(*ssa.Function) bool { return true }) {
+				direct := false
+				if site := SoleCallSite(g); site != nil && g != root {
+					top := site.Parent()
+					for top.Parent() != nil {
+						top = top.Parent()
+					}
+					direct = top == root && g != poolRun && g != awaitAsync && g != awaitRun && g != instRun
+				}
+				if g.Parent() == nil && !seenRoot[g] && (g == root || direct) {
+					seenRoot[g] = true
+					goRoots = append(goRoots, g)
+				}
+			}
+		}
+		for _, root := range goRoots {
 			for _, g := range WithClosures(root) {
 				EachInstr(g, func(in ssa.Instruction) {
 					gi, ok := in.(*ssa.Go)
@@ -805,7 +837,14 @@ func runC05(c *Ctx) {
 		c.Check(okDef, "O5.8", key+":deferred-cancel", fn.Pos(), "the derived context's cancel must be deferred in the entry block and called on every path of the deferred closure")
 		// ctx.Done cases return ctx.Err()
 		n := 0
-		for _, g := range []*ssa.Function{fn} {
+		// fn and the helpers only it calls (awaitPools(ctx, runRes))
+		var selFns []*ssa.Function
+		for _, g := range FindFuncs(fn, 2, func(*ssa.Function) bool { return true }) {
+			if g == fn || g.Parent() == nil && P.WithinOnly(g, func(f *ssa.Function) bool { return f == fn }, 3) {
+				selFns = append(selFns, g)
+			}
+		}
+		for _, g := range selFns {
 			for _, s := range Selects(g) {
 				for _, cs := range SelectCases(s) {
 					if cs.State == nil || cs.State.Dir != types.RecvOnly {
